@@ -66,7 +66,7 @@ T = {
          'Decides: every statically named gate spelling the writer can emit is in the reader table with the same arity and constructor (known gaps reported); grammar function terminals = evaluator table = OpenQASM 2 set; every semantic grammar rule has a visitor method; translators go through the QASM codec; every register-local qubit index reaches the circuit only shifted by its register\'s offset, computed by a cursor that starts at 0 and advances by each register\'s size; the writer declares each register once; the evaluator keeps the brackets of a parenthesised sub-expression and brackets every spliced argument; a custom gate definition hands each inner gate its own parameter slice.',
          'Unitary agreement with Qiskit and parameter binding in nested definitions are NOT decided.'),
  'C18': ('static analysis: eq/hash consistency (HASH), override pairing (OVERRIDE), value-numbered agreement of get_unitary/get_grad/get_unitary_and_grad (TRIAD), gradient literal shapes (GRADSHAPE, SIBTEMP), order-sensitive folds (KRONFOLD, INSERTORD), adjoint-spelling agreement (ADJOINT), no angle from a quotient (ATAN), symbolic differentiation of hand-written unitaries in the sin/cos/phase polynomial ring (GRADSYM), magnitude-blind optimisers (MAGBLIND), totality of calc_params under the inherited optimize (TOTAL), unclipped inverse sine/cosine (NANDOM), unguarded division by a recovered angle\'s sine/cosine in calc_params (DEGEN)',
-         'Decides: all gate classes have consistent, order-independent eq/hash; inverse methods are overridden together; the three evaluation entry points of delegating gates are the same expressions; hand-written gradient literals have one matrix per parameter with the unitary\'s shape; Kronecker folds keep the accumulator on the left; index inserts run in ascending order; matrices the pinned tree adjoins are not merely transposed or conjugated; optimize() recovers angles with a two-argument arctangent, never from a quotient; for the gates written out as matrices of sines, cosines and phases (U2, U3, CKM, CKMdg) every gradient entry equals the symbolic derivative of the unitary entry; no optimize() computes a parameter from the separate phases of several environment entries it multiplies; a class inheriting GeneralGate.optimize has a calc_params without content-dependent raise; arccos/arcsin arguments are clipped or normalised ratios and calc_params does not divide by an unguarded sine/cosine of a recovered angle (U8Gate.calc_params: six known findings).',
+         'Decides: all gate classes have consistent, order-independent eq/hash; inverse methods are overridden together; the three evaluation entry points of delegating gates are the same expressions; hand-written gradient literals have one matrix per parameter with the unitary\'s shape; Kronecker folds keep the accumulator on the left; index inserts run in ascending order; matrices the pinned tree adjoins are not merely transposed or conjugated; optimize() recovers angles with a two-argument arctangent, never from a quotient; for the gates written out as matrices of sines, cosines and phases (U2, U3, CKM, CKMdg) every gradient entry equals the symbolic derivative of the unitary entry; no optimize() computes a parameter from the separate phases of several environment entries it multiplies; a class inheriting GeneralGate.optimize has a calc_params without content-dependent raise; arccos/arcsin arguments are clipped or normalised ratios and calc_params does not divide by an unguarded sine/cosine of a recovered angle.',
          'Unitarity, derivative values outside that fragment (delegating, expm- and kron-based gates), calc_params and agreement with the binary expression backend are numerical and NOT decided.'),
  'C19': ('static analysis: returns-receiver path rule, effect restriction on the receiver circuit (EFF), arg-min selection idiom over the four multi-start siblings, in both the sort and the running-minimum spelling (ARGMIN), parameter-vector order (CURSOR), clone comparison of the UnitaryBuilder contractions (CLONE)',
          'Decides: Circuit.instantiate returns self on every path; from instantiate and every instantiater only set_params mutates the receiver; all multi-start selectors keep the candidate of least Hilbert-Schmidt cost against (circuit, target); Circuit.params is the concatenation in iteration order.',
